@@ -145,7 +145,7 @@ impl Scenario for Static {
     fn gen(&self, run_seed: u64, tier: Tier) -> Value {
         let mut rng = Rng::new(run_seed);
         let o = opts_for(self.prop, self.variant, &mut rng, tier);
-        let mut spec = gen_ws(&mut rng, &o);
+        let mut spec = if self.prop == "C14" && rng.chance(100) { super::ws::ring_ws(&mut rng) } else { gen_ws(&mut rng, &o) };
         if self.prop == "C05" {
             // a parameterless probe test at the end of every test file: completion inside its
             // parentheses offers every visible fixture
@@ -691,13 +691,17 @@ fn oracle_c14(out: &mut RunOut, model: &Model, raw: &Raw) {
             out.violate("third-party-in-workspace-symbols", s.clone());
         }
     }
-    // imported modules must have been discovered
+    // imported modules must have been discovered (last pytest_plugins assignment wins)
     for f in &model.spec.files {
-        let imported = model.spec.files.iter().any(|g| g.items.iter().any(|i| match i {
-            Item::Star { target: Some(t), .. } | Item::Import { target: Some(t), .. } => *t == f.rel,
-            Item::Plugins { targets, .. } => targets.iter().flatten().any(|t| *t == f.rel),
-            _ => false,
-        } && (raw.cached.contains(&g.rel))));
+        let imported = model.spec.files.iter().any(|g| {
+            let last_plugins = g.items.iter().rposition(|i| matches!(i, Item::Plugins { .. }));
+            raw.cached.contains(&g.rel)
+                && g.items.iter().enumerate().any(|(idx, i)| match i {
+                    Item::Star { target: Some(t), .. } | Item::Import { target: Some(t), .. } => *t == f.rel,
+                    Item::Plugins { targets, .. } => Some(idx) == last_plugins && targets.iter().flatten().any(|t| *t == f.rel),
+                    _ => false,
+                })
+        });
         if imported && !raw.cached.contains(&f.rel) {
             out.violate("imported-module-not-indexed", format!("{} is imported by an indexed file but was not analysed", f.rel));
         }
